@@ -87,3 +87,6 @@ Proof. split; reflexivity. Qed.
 
 Lemma src_wake_every_push : forall n workers, stranded wake_policy_src n workers = 0%nat.
 Proof. change wake_policy_src with WakeEveryPush. exact every_push_no_stranded. Qed.
+
+Lemma src_exit_slot : exit_shapes_ok reclaim_slot_kind_src = true /\ reclaim_at_thread_exit_src = true.
+Proof. split; vm_compute; reflexivity. Qed.
